@@ -78,6 +78,12 @@ class C10Monitor(Monitor):
         super().__init__(x)
         if C10Monitor.seen is None:
             C10Monitor.seen = set()
+        self.sprouted = {}  # parent id -> genomes of the seeds sprouted from it (recorded when a child is first seen)
+        self.known_children = set()
+
+    def has_skipsame(self):
+        sp = self.x.desc["sprout"]
+        return any(f.get("kind") == "skipsame" for f in sp.get("tree_chain", []) if isinstance(f, dict))
 
     # ------------------------------------------------------------------ generators / records
     def on(self, kind, tree, info):
@@ -86,7 +92,24 @@ class C10Monitor(Monitor):
             self.generators(tree)
             self.synthetic(tree)
             self.pops = {d.id: [id(i) for i in d.current_population] for _, d in tree.all_demes}
+        elif kind == "boundary":
+            for _, p in tree.all_demes:
+                for c in p.children:
+                    if c.id not in self.known_children:
+                        self.known_children.add(c.id)
+                        sd = getattr(c, "_sprout_seed", None)
+                        if sd is not None:
+                            self.sprouted.setdefault(p.id, []).append(np.asarray(sd.genome, dtype=float).copy())
         elif kind == "round_end":
+            if self.has_skipsame():
+                # the mechanism contains SkipSameSprout: nothing it returns for a parent may equal a seed that parent sprouted before
+                for d, c in info["seeds"].items():
+                    for ind in c.individuals:
+                        g = np.asarray(ind.genome, dtype=float)
+                        if any(np.array_equal(g, s0) for s0 in self.sprouted.get(d.id, [])):
+                            x.violate("C10/skipsame-let-through-own:run", f"the mechanism (with SkipSameSprout) returned for parent {d.id} a candidate bitwise equal to a seed already sprouted from it")
+                        else:
+                            x.flag("returned seed compared with the parent's earlier seeds")
             mech = x.w.mechanism
             gen_hist = getattr(mech, "_generated_deme_ids_to_candidates_history", None)
             used_hist = getattr(mech, "_used_deme_ids_to_candidates_history", None)
@@ -181,9 +204,10 @@ class C10Monitor(Monitor):
         # a limit below the number of demes already active on ANY level is not a reachable configuration
         act = max([act] + [sum(1 for d in lv if d.is_active) for lv in tree.levels[1:]])
         act_t = sum(1 for d in tree.levels[plevel + 1] if d.is_active)
-        for n in range(1, self.NMAX + 1):
+        for n, base in [(n, 0.0) for n in range(1, self.NMAX + 1)] + [(n, 1e12) for n in (2, 3)]:
+            # base 1e12: fitness values that agree to 12 significant digits (distinct, but 'close')
             for wo in weak_orderings(n):
-                fits = [sgn * v for v in wo]
+                fits = [sgn * (base + v) for v in wo]
                 for sp in splits(n, len(parents)):
                     for L in (1, 2, 3):
                         if act > L:
@@ -361,6 +385,11 @@ def units(tier, seed):
                 descs.append(dict(engines=list(eng), gens=1, maximize=mx, Mh=5, seed=s + k, sprout=sp, lsc=[None, None, {"kind": "metaepoch", "m": 1 + k % 2}],
                                   obj=("twofunnel", "sphere_in")[k % 2], choices="S" if sp["kind"] == "scripted" else ""))
     us += [{"kind": "run", "descs": c, "tier": tier} for c in chunks(descs, 10)]
+    # shipped / user-composed mechanisms (some with SkipSameSprout), a user printing the reports between steps
+    from ..runlib import mechanism_descs
+
+    md = [dict(d, choices="", print_at_boundaries=True, Mh=6) for d in mechanism_descs(tier, seed)]
+    us += [{"kind": "run", "descs": c, "tier": tier} for c in chunks(md, 6)]
     return us
 
 
